@@ -184,6 +184,14 @@ func (rt *runtime) cmplEvaluateNodeForInStatement(node *nodeForInStatement) Valu
 	labels := append(rt.labels, "") //nolint:gocritic
 	rt.labels = nil
 
+	into := node.into
+	if variable, ok := into.(*nodeVariableExpression); ok && variable.initializer != nil {
+		// for (var x = init in obj): the declaration is evaluated once, before
+		// the expression (12.6.4, second form, step 1); the loop assigns to x.
+		rt.cmplEvaluateNodeVariableExpression(variable)
+		into = &nodeVariableExpression{idx: variable.idx, name: variable.name}
+	}
+
 	source := rt.cmplEvaluateNodeExpression(node.source)
 	sourceValue := source.resolve()
 
@@ -194,7 +202,6 @@ func (rt *runtime) cmplEvaluateNodeForInStatement(node *nodeForInStatement) Valu
 
 	sourceObject := rt.toObject(sourceValue)
 
-	into := node.into
 	body := node.body
 
 	result := emptyValue
